@@ -177,6 +177,14 @@ class _ExprNorm(ast.NodeTransformer):
 
     def visit_JoinedStr(self, node):
         self.generic_visit(node)
+        # f"{a}{x if c else y}"  ->  f"{a}{x}" if c else f"{a}{y}"
+        for i, v in enumerate(node.values):
+            if isinstance(v, ast.FormattedValue) and v.conversion == -1 and v.format_spec is None and isinstance(v.value, ast.IfExp):
+                def variant(e):
+                    vals = list(node.values)
+                    vals[i] = ast.FormattedValue(value=e, conversion=-1, format_spec=None)
+                    return self.visit_JoinedStr(ast.JoinedStr(values=copy.deepcopy(vals)))
+                return ast.copy_location(ast.IfExp(test=v.value.test, body=variant(v.value.body), orelse=variant(v.value.orelse)), node)
         return _merge_joined(node)
 
     def visit_IfExp(self, node):
